@@ -447,11 +447,67 @@ func undeleteFamily() []*annot.Input {
 	return out
 }
 
+// lateFirstFamily: a child whose FIRST version appears shortly AFTER the parent version that
+// references it (1ns, half a threshold, threshold -1ns / exactly / +1ns after it), in the parent's
+// changeset or in another one, for thresholds default / 1s / 2h / 0, timestamp and commit regime,
+// mostly under IgnoreInconsistency (the reference then stays unannotated and every version of the
+// child must come as an update), next to a child with an ordinary history.
+func lateFirstFamily() []*annot.Input {
+	var out []*annot.Input
+	k := 0
+	for _, commit := range []bool{false, true} {
+		for _, th := range []time.Duration{30 * time.Minute, time.Second, 2 * time.Hour, 0} {
+			offs := []time.Duration{1, th / 2, th - 1, th, th + 1}
+			if th == 0 {
+				offs = []time.Duration{1, time.Second, time.Minute}
+			}
+			for _, d := range offs {
+				for _, sameCS := range []bool{false, true} {
+					base, regime := osm.CommitInfoStart.Add(-1800*24*time.Hour), "old"
+					if commit {
+						base, regime = osm.CommitInfoStart.Add(300*24*time.Hour), "commit"
+					}
+					at := func(dd time.Duration) (time.Time, *time.Time) {
+						t := base.Add(dd)
+						if commit {
+							c := t
+							return t, &c
+						}
+						return t, nil
+					}
+					in := &annot.Input{IsRel: k%2 == 1, Threshold: th, Regime: regime, IgnoreIncons: k%4 != 3}
+					late, other := osm.NodeID(1).FeatureID(), osm.NodeID(2).FeatureID()
+					pAt := 10 * time.Hour
+					mkv := func(v int, dd time.Duration, cs int64) annot.Hver {
+						ts, com := at(dd)
+						return annot.Hver{Version: v, Changeset: cs, Timestamp: ts, Committed: com, Lat: float64(v), Lon: 2, Visible: true}
+					}
+					cs1 := int64(77)
+					if sameCS {
+						cs1 = 100
+					}
+					in.Hists = []annot.Hist{
+						{FID: late, Versions: []annot.Hver{mkv(1, pAt+d, cs1), mkv(2, pAt+5*time.Hour, 78), mkv(3, pAt+30*time.Hour, 79)}},
+						{FID: other, Versions: []annot.Hver{mkv(1, 2*time.Hour, 60), mkv(2, pAt+6*time.Hour, 61)}}}
+					pts, pcom := at(pAt)
+					p2ts, p2com := at(pAt + 40*time.Hour)
+					in.Parents = []annot.Parent{
+						{Changeset: 100, Visible: true, Timestamp: pts, Committed: pcom, Refs: []annot.Ref{{FID: other}, {FID: late}}},
+						{Changeset: 101, Visible: true, Timestamp: p2ts, Committed: p2com, Refs: []annot.Ref{{FID: late}, {FID: other}}}}
+					out = append(out, in)
+					k++
+				}
+			}
+		}
+	}
+	return out
+}
+
 func main() {
 	a := wire.ParseArgs()
 	rng := wire.Rng(a.Seed)
 	w := wire.NewWriter("C11", a.Seed, a.Tier)
-	w.Rule = "edit histories: 1-5 parent versions, 1-6 children (repeats, entering, leaving), up to 8 versions per child placed before/between/after/in the same second as parent versions, deletions and undeletions, regimes commit / old / nocommit / mixed, thresholds 0,1s,30min,10000h,random; families: undelete (a child deleted before / at the parent version and undeleted later, with and without IgnoreInconsistency), errors (4 ignore-option combinations x {never listed, not found, empty, all deleted, deleted at the parent's time, lookup failing with another error}), slow_datasource (context-honouring lookups with one ignorable missing child), late_parent (first k parent versions annotated alone, then all together with the first k already annotated), old data with a populated committed attribute, location-only references under a filter, versions dated in the year 2100; plus a boundary family (child versions stamped exactly at a parent's stamp, at the next parent's stamp minus the threshold, +-1ns, +-threshold), child filters with pre-annotated references, ignore options, missing or failing histories; half of the histories are consistent (success expected). For every visible parent of a successful annotation ApplyUpdatesUpTo(t) is observed at up to 8 (quick) / 16 (thorough) times drawn from all event times, +-1ns, +-threshold (window times first). Non-trivial = error outcome or at least one update; distinct = distinct token streams."
+	w.Rule = "edit histories: 1-5 parent versions, 1-6 children (repeats, entering, leaving), up to 8 versions per child placed before/between/after/in the same second as parent versions, deletions and undeletions, regimes commit / old / nocommit / mixed, thresholds 0,1s,30min,10000h,random; families: late_first (a child whose first version appears 1ns / half a threshold / threshold-1ns / threshold / threshold+1ns AFTER the parent version referencing it, in the parent's changeset or another one, thresholds default / 1s / 2h / 0, both regimes, mostly under IgnoreInconsistency), undelete (a child deleted before / at the parent version and undeleted later, with and without IgnoreInconsistency), errors (4 ignore-option combinations x {never listed, not found, empty, all deleted, deleted at the parent's time, lookup failing with another error}), slow_datasource (context-honouring lookups with one ignorable missing child), late_parent (first k parent versions annotated alone, then all together with the first k already annotated), old data with a populated committed attribute, location-only references under a filter, versions dated in the year 2100; plus a boundary family (child versions stamped exactly at a parent's stamp, at the next parent's stamp minus the threshold, +-1ns, +-threshold), child filters with pre-annotated references, ignore options, missing or failing histories; half of the histories are consistent (success expected). For every visible parent of a successful annotation ApplyUpdatesUpTo(t) is observed at up to 8 (quick) / 16 (thorough) times drawn from all event times, +-1ns, +-threshold (window times first). Non-trivial = error outcome or at least one update; distinct = distinct token streams."
 	n, ntimes := 200, 8
 	if a.Tier == "thorough" {
 		n, ntimes = 6000, 16
@@ -475,6 +531,10 @@ func main() {
 			c, _, _ := mainCase(w, rng, in, ntimes, "errors")
 			w.Add(c)
 		}
+	}
+	for _, in := range lateFirstFamily() {
+		c, _, _ := mainCase(w, rng, in, ntimes, "late_first")
+		w.Add(c)
 	}
 	for _, in := range undeleteFamily() {
 		c, _, _ := mainCase(w, rng, in, ntimes, "undelete")
